@@ -182,14 +182,25 @@ for d in sorted(glob.glob(os.path.join(V, "seeded", "C??-?"))):
     meta = {"name": name, "breaks_property": name.split("-")[0], "change": what, "needs_to_manifest": needs,
             "confirmation": {"how": "tools/seedverify.sh in the author's scratch worktree: git apply, make, make -k check, demo/run.sh with and without the patch", "result": ver},
             "checks_run": det, "caught_by": sorted({"%s/%s" % (x["check"], x["tier"]) for x in det if x["detected"]})}
+    sup = os.path.join(d, "SUPERSEDED.txt")
+    if os.path.exists(sup):
+        meta["superseded"] = open(sup).read().strip()
+    if det:
+        meta["last_run"] = {"check": det[-1]["check"], "detected": det[-1]["detected"]}
     json.dump(meta, open(os.path.join(d, "meta.json"), "w"), indent=1)
     rows.append(meta)
 with open(os.path.join(V, "seeded", "SUMMARY.md"), "w") as f:
     f.write("# Seeded changes and the checks that catch them\n\nGenerated by tools/seedsummary.py from seeded/*/runs.txt. Each change was written by a sub-agent that saw only the property text; "
             "`confirmed` = applies, `make -k check` passes with it, its demo fails with it and passes without.\n\n| change | breaks | what it is | needs | confirmed | caught by |\n|---|---|---|---|---|---|\n")
     for m in rows:
-        ok = "demo_with_patch_exit=1 demo_without_patch_exit=0" in m["confirmation"]["result"] and "FAIL:  0" in m["confirmation"]["result"]
-        f.write("| %s | %s | %s | %s | %s | %s |\n" % (m["name"], m["breaks_property"], m["change"], m["needs_to_manifest"], "yes" if ok else "NO", ", ".join(m["caught_by"]) or "**not caught yet**"))
-    n = sum(1 for m in rows if m["caught_by"])
-    f.write("\n%d of %d caught.\n" % (n, len(rows)))
-print("seeded: %d changes, %d caught" % (len(rows), sum(1 for m in rows if m["caught_by"])))
+        r = m["confirmation"]["result"]
+        mm = re.findall(r"demo_with_patch_exit=(\d+) demo_without_patch_exit=(\d+)", r)
+        ok = any(int(a) != 0 and int(b) == 0 for a, b in mm) and "FAIL:  0" in r
+        caught = ", ".join(m["caught_by"]) or "**not caught yet**"
+        if "superseded" in m:
+            caught += " (superseded: no longer breaks the property on the current tree, see SUPERSEDED.txt)"
+        f.write("| %s | %s | %s | %s | %s | %s |\n" % (m["name"], m["breaks_property"], m["change"], m["needs_to_manifest"], "yes" if ok else "NO", caught))
+    live = [m for m in rows if "superseded" not in m]
+    n = sum(1 for m in live if m["caught_by"])
+    f.write("\n%d of %d caught (%d more are superseded by a later repair of /repo and not counted).\n" % (n, len(live), len(rows) - len(live)))
+print("seeded: %d live changes, %d caught, %d superseded" % (len(live), n, len(rows) - len(live)))
